@@ -210,6 +210,39 @@ theorem optimal_orth_path_cost_frame_invariant (F : Frame) (seg rev : Rat) (sc :
     IsOptOrthPathCost seg rev (F.actScene sc) (F.act s) (F.act d) c ↔ IsOptOrthPathCost seg rev sc s d c :=
   FrameCost.isOptOrthPathCost_act F seg rev sc s d c
 
+-- the two sides of optimal_orth_cost_frame_invariant / optimal_orth_path_cost_frame_invariant are not constantly false:
+-- `IsOptOrthCost` and `IsOptOrthPathCost` hold on a non-degenerate problem (empty scene, (0,0) → (3,0), optimal cost 3)
+example : IsOptOrthCost 2 [] ⟨0, 0⟩ ⟨3, 0⟩ 3 ∧ IsOptOrthPathCost 2 5 [] ⟨0, 0⟩ ⟨3, 0⟩ 3 := by
+  have key : ∀ (r : Route) (a b : Pt), r.head? = some a → r.getLast? = some b → b.x - a.x ≤ manhattanLen r := by
+    intro r
+    induction r with
+    | nil => intro a b h; simp at h
+    | cons p rest ih =>
+      intro a b ha hb
+      simp only [List.head?_cons, Option.some.injEq] at ha
+      subst ha
+      cases rest with
+      | nil =>
+        simp only [List.getLast?_singleton, Option.some.injEq] at hb
+        subst hb; simp [manhattanLen]
+      | cons q rest' =>
+        have h1 := ih q b rfl (by simpa [List.getLast?_cons_cons] using hb)
+        have h2 : q.x - p.x ≤ manhattanDist p q := by
+          unfold manhattanDist absR; split <;> split <;> linarith
+        simp only [manhattanLen]; linarith
+  have hvalid : OrthRouteValid [] ⟨0, 0⟩ ⟨3, 0⟩ [⟨0, 0⟩, ⟨3, 0⟩] :=
+    ⟨⟨rfl, rfl, fun _ _ R hR => absurd hR List.not_mem_nil⟩, by decide⟩
+  refine ⟨⟨⟨_, hvalid, ?_⟩, fun r hr => ?_⟩, ⟨⟨_, hvalid, ?_⟩, fun r hr => ?_⟩⟩
+  · norm_num [orthCost, manhattanLen, manhattanDist, absR, bends]
+  · have := key r _ _ hr.1.1 hr.1.2.1
+    have hb : (0 : Rat) ≤ ((bends r : Nat) : Rat) := by exact_mod_cast Nat.zero_le _
+    simp only [orthCost] at *; norm_num at this; linarith
+  · norm_num [orthPathCost, manhattanLen, manhattanDist, absR, bends, revEdges]
+  · have := key r _ _ hr.1.1 hr.1.2.1
+    have hb : (0 : Rat) ≤ ((bends r : Nat) : Rat) := by exact_mod_cast Nat.zero_le _
+    have hc : (0 : Rat) ≤ ((revEdges ⟨0, 0⟩ ⟨3, 0⟩ r.dropLast : Nat) : Rat) := by exact_mod_cast Nat.zero_le _
+    simp only [orthPathCost] at *; norm_num at this; linarith
+
 -- the model on a concrete vertex path: source (0,0), destination (0,4) (vertically aligned), path up to (0,-2) in two
 -- edges, across to (3,-2), down to (3,4), back to (0,4): the two upward edges are the reversing ones
 example : revEdges ⟨0, 0⟩ ⟨0, 4⟩ [⟨0, 0⟩, ⟨0, -1⟩, ⟨0, -2⟩, ⟨3, -2⟩, ⟨3, 4⟩, ⟨0, 4⟩] = 2 := by
@@ -275,6 +308,12 @@ theorem vpsc_shifted_optimum_eq (P : VProblem) (hw : P.WF) (t : Rat) (x x' : Nat
     (hx : P.IsOptimum x) (hx' : (P.shift t).IsOptimum x') : ∀ i, i < P.n → x' i = x i + t :=
   FrameVpsc.vpsc_shifted_optimum_eq P hw t x x' hx hx'
 
+-- non-vacuity of vpsc_shifted_optimum_eq: the shifted example problem has an optimum, and every optimum of it is (4, 6)
+example : (∃ x', (exP.shift 5).IsOptimum x') ∧ ∀ x', (exP.shift 5).IsOptimum x' → x' 0 = 4 ∧ x' 1 = 6 := by
+  refine ⟨⟨_, (vpsc_translation_equivariant exP 5 exX).1 FrameExample.exX_optimum⟩, fun x' hx' => ?_⟩
+  have h := vpsc_shifted_optimum_eq exP FrameExample.exP_wf 5 exX x' FrameExample.exX_optimum hx'
+  exact ⟨by rw [h 0 (by decide)]; norm_num [exX], by rw [h 1 (by decide)]; norm_num [exX]⟩
+
 /-- renaming the variables by a permutation σ (inverse τ) and listing the renamed constraints in any
     order / multiplicity permutes the optimum -/
 theorem vpsc_permutation_invariant (P : VProblem) (hw : P.WF) (σ τ : Nat → Nat) (hp : IsPerm P.n σ τ)
@@ -290,6 +329,24 @@ theorem vpsc_permuted_optimum_eq (P : VProblem) (hw : P.WF) (σ τ : Nat → Nat
     (cons' : List VCon) (hc : ∀ c, c ∈ cons' ↔ ∃ c0 ∈ P.cons, c = c0.rename σ) (x x' : Nat → Rat)
     (hx : P.IsOptimum x) (hx' : (P.permute τ cons').IsOptimum x') : ∀ j, j < P.n → x' j = x (τ j) :=
   FrameVpsc.vpsc_permuted_optimum_eq P hw σ τ hp cons' hc x x' hx hx'
+
+-- non-vacuity of vpsc_permutation_invariant and vpsc_permuted_optimum_eq (all hypotheses jointly): the example problem with
+-- its two variables exchanged and the renamed constraint list; the permuted problem has an optimum, every optimum is (1, −1)
+example :
+    (∀ c, c ∈ exP.cons.map (VCon.rename (fun i => 1 - i)) ↔ ∃ c0 ∈ exP.cons, c = c0.rename (fun i => 1 - i)) ∧
+    (∃ x', (exP.permute (fun i => 1 - i) (exP.cons.map (VCon.rename (fun i => 1 - i)))).IsOptimum x') ∧
+    ∀ x', (exP.permute (fun i => 1 - i) (exP.cons.map (VCon.rename (fun i => 1 - i)))).IsOptimum x' →
+      x' 0 = 1 ∧ x' 1 = -1 := by
+  have hp : IsPerm exP.n (fun i => 1 - i) (fun i => 1 - i) := by
+    refine ⟨fun i hi => ?_, fun j hj => ?_⟩ <;> simp only [exP] at * <;> omega
+  have hc : ∀ c, c ∈ exP.cons.map (VCon.rename (fun i => 1 - i)) ↔
+      ∃ c0 ∈ exP.cons, c = c0.rename (fun i => 1 - i) := by
+    intro c; simp only [List.mem_map]
+    exact ⟨fun ⟨a, h1, h2⟩ => ⟨a, h1, h2.symm⟩, fun ⟨a, h1, h2⟩ => ⟨a, h1, h2.symm⟩⟩
+  refine ⟨hc, ⟨_, vpsc_permutation_invariant exP FrameExample.exP_wf _ _ hp _ hc exX FrameExample.exX_optimum⟩,
+    fun x' hx' => ?_⟩
+  have h := vpsc_permuted_optimum_eq exP FrameExample.exP_wf _ _ hp _ hc exX x' FrameExample.exX_optimum hx'
+  exact ⟨by rw [h 0 (by decide)]; norm_num [exX], by rw [h 1 (by decide)]; norm_num [exX]⟩
 
 /-! ## (4) where heap addresses can leak into removeoverlaps -/
 
@@ -309,6 +366,14 @@ example : FrameScan.TieFree (fun i => (i : Rat)) [0, 1, 2] := by
   have h' : (u : Rat) = (v : Rat) := h
   exact huv (by exact_mod_cast h')
 
+-- non-vacuity of tie_free_deterministic (both hypotheses jointly; the theorem instantiated on a 4-operation sweep with two
+-- different address assignments)
+example : scanTrace (keyLt (fun i => (i : Rat)) (fun i => i)) [] [(true, 2), (true, 0), (true, 1), (false, 0)] =
+    scanTrace (keyLt (fun i => (i : Rat)) (fun i => 7 - i)) [] [(true, 2), (true, 0), (true, 1), (false, 0)] :=
+  tie_free_deterministic _ _ _ [0, 1, 2]
+    (by intro u hu v hv huv h; have h' : (u : Rat) = (v : Rat) := h; exact huv (by exact_mod_cast h'))
+    _ (by decide)
+
 /-- the same for the comparator of the C09 scan-line model (`Model.Scanline.keyLt ax rank`, the `lt`
     handed to `scanPtr`/`scanNL`): with pairwise distinct centres in the constraint dimension it does
     not depend on the address ranks -/
@@ -318,6 +383,13 @@ theorem c09_comparator_tie_free (ax : AdaptaVerif.Model.Scanline.Axis) (r1 r2 : 
   intro u hu v hv
   rw [FrameScanC09.scanline_keyLt_eq, FrameScanC09.scanline_keyLt_eq]
   exact FrameScan.keyLt_tie_free ax.ctr r1 r2 ids h u hu v hv
+
+-- non-vacuity of c09_comparator_tie_free: an axis with pairwise distinct centres
+example : FrameScan.TieFree (⟨fun _ => 0, fun _ => 0, fun i => (i : Rat), fun _ => 0, fun _ _ => 0, fun _ _ => 0⟩ :
+    AdaptaVerif.Model.Scanline.Axis).ctr [0, 1, 2] := by
+  intro u hu v hv huv h
+  have h' : (u : Rat) = (v : Rat) := h
+  exact huv (by exact_mod_cast h')
 
 /-- …and the hypothesis is needed: with two coincident centres the scan-line order IS the address order -/
 theorem coincident_centres_depend_on_addresses :
